@@ -214,6 +214,8 @@ inductive CreateErr where
   | unexpected            -- BadUnexpectedError (enum decode)
   | unsupported           -- BadMonitoredItemFilterUnsupported
   | deadbandInvalid       -- BadDeadbandFilterInvalid
+  | notAllowed            -- BadFilterNotAllowed (not a filter this server knows)
+  | decoding              -- BadDecodingError (no body / body too short)
 deriving Repr, DecidableEq
 
 /-- `FilterType::from_filter` for a null filter (`none`) or a DataChangeFilter body -/
@@ -263,6 +265,41 @@ def modify (c : Src) (it : Item) (ttr : Nat) (f : Option DCF) : Item × Option C
 /-- `MonitoredItem::new` followed by `validate_filter` (no result for data change filters) -/
 def create (c : Src) (ttr : Nat) (f : Option DCF) : Except CreateErr Item :=
   match fromFilter c f with
+  | .ok flt => .ok { filter := flt, ttr := ttr, last := none }
+  | .error e => .error e
+
+/-- the wire forms of the `filter` extension object that `from_filter` distinguishes -/
+inductive FilterReq where
+  | none                          -- null node id: no filter
+  | dcf (f : DCF)                 -- DataChangeFilter, body of exactly 16 bytes
+  | otherObject                   -- an object id that is neither DataChangeFilter nor EventFilter
+  | notObject                     -- a node id that is not an object id at all
+  | noBody (f : DCF)              -- DataChangeFilter id, but no byte string body
+  | sized (f : DCF) (len : Nat)   -- DataChangeFilter id, body cut to / padded to `len` bytes
+deriving Repr, DecidableEq
+
+/-- `FilterType::from_filter` on every wire form (the decoder reads trigger, deadband type, deadband
+value in this order and ignores trailing bytes) -/
+def fromFilterReq (c : Src) : FilterReq → Except CreateErr Filter
+  | .none => fromFilter c none
+  | .dcf f => fromFilter c (some f)
+  | .otherObject => .error .notAllowed
+  | .notObject => .error .notAllowed
+  | .noBody _ => .error .decoding
+  | .sized f len =>
+    if len < 4 then .error .decoding
+    else if f.trigger > 2 then .error .unexpected
+    else if len < 16 then .error .decoding
+    else fromFilter c (some f)
+
+def modifyReq (c : Src) (it : Item) (ttr : Nat) (r : FilterReq) : Item × Option CreateErr :=
+  let it := { it with ttr := ttr }
+  match fromFilterReq c r with
+  | .ok flt => ({ it with filter := flt }, none)
+  | .error e => (it, some e)
+
+def createReq (c : Src) (ttr : Nat) (r : FilterReq) : Except CreateErr Item :=
+  match fromFilterReq c r with
   | .ok flt => .ok { filter := flt, ttr := ttr, last := none }
   | .error e => .error e
 
